@@ -15,6 +15,6 @@ GROUPS = [
     dels("delrows", ["ILLlib_delrows", "delcols_work"], ["C06", "C05", "C01", "C07", "C12", "C17"], True, must_fail=["reach_end", "reach_cache_kept"]),
     dels("delcols", ["ILLlib_delcols", "delcols_work"], ["C06", "C07", "C12", "C17"], True),
     dels("delrows", ["ILLlib_delrows", "delcols_work"], ["C06", "C05", "C01", "C07", "C12", "C17"], False, must_fail=["reach_end", "reach_cache_kept"]),
-    dels("delrows", ["ILLlib_delrows", "delcols_work"], ["C06", "C05", "C01", "C07", "C12", "C17"], True, nr=3, tier="thorough", must_fail=["reach_end", "reach_cache_kept"]),
+    # the 3-row variant of del/delrows_s exhausts the 20 GiB address-space limit (removed from the registry)
     dels("delcols", ["ILLlib_delcols", "delcols_work"], ["C06", "C07", "C12", "C17"], False),
 ]
